@@ -42,11 +42,11 @@ def run(ctx):
     states += rw.distinct
     transitions += rw.generated
     # family Sigops: P2SH redeem-script and witness-script operations of the inputs count towards the budget
-    rs = L.mc(ctx, "Sigops", 4 if quick else 6)
+    rs = L.mc(ctx, "Sigops", 3 if quick else 5)
     if rs.invariant:
         raise Infra("design-level counterexample in Ledger/Sigops (%s)\n%s" % (rs.invariant, rs.tail))
     rs.require_ok("mc Sigops")
-    exs, liness, scens, ns = L.export(ctx, "Sigops", 4 if quick else 6, "sigops")
+    exs, liness, scens, ns = L.export(ctx, "Sigops", 3 if quick else 5, "sigops")
     summs, failss = L.replay(ctx, binp, scens, liness, "sigops")
     ctx.log("Sigops: %d transitions replayed, %d failures" % (summs["lines"], summs["fail"]))
     L.report(ctx, "Sigops", failss, ("verdict", "utxo", "tip", "later"))
